@@ -4,7 +4,7 @@ TRANSLATORS = []
 HARNESS = 'harness/c20.py'
 TRUSTED_BASE = [
     'Lean 4.33 kernel; axioms propext, Classical.choice, Quot.sound only (audited per theorem each run)',
-    'hand-written model lean/PysphVerif/Model/Needs.lean (checker, AccelerationEval flattening, stepper checks, pointer set-up of the generated code, precomputed closure) and Model/NeedsCodegen.lean (the check / declaration / binding sites of the integrator code generator as three separate transcriptions, keys of known_types), tied to the code by differential execution on every run (harness/c20.py)',
+    'hand-written model lean/PysphVerif/Model/Needs.lean (checker, AccelerationEval flattening, stepper checks, pointer set-up of the generated code, precomputed closure) and Model/NeedsCodegen.lean (the check / declaration / binding sites of the integrator code generator as three separate transcriptions, keys of known_types) and Model/NeedsObjects.lean (stepper OBJECTS given to keywords: Integrator(fluid=step, solid=step); the code ranges over (array, stepper) pairs), tied to the code by differential execution on every run (harness/c20.py)',
     'the precomputed-symbol table is a parameter of every theorem; the harness feeds the model the real table (cb.symbols of Group.pre_comp) and synthetic acyclic ones',
     'the specification of "needs" is the inductive reachability relation Reach in Lemmas/Needs.lean (not the code\'s closure loop)',
     'method signatures are what inspect.getfullargspec reports (the harness passes them to the model; the oracle reads code objects instead)',
@@ -19,7 +19,7 @@ READY = True
 DESIGN_REF = '6/C20'
 TECHNIQUE = 'Lean 4 proof over a hand-written model + correspondence check'
 LEVEL_TEXT = ("Lean 4 theorems over every precomputed-symbol table, every list of particle arrays, every program "
-              "(groups, sub-groups, repeated equations) and every set of steppers: precomputed_is_reachable_set "
+              "(groups, sub-groups, the same equation or group object used repeatedly) and every set of steppers: precomputed_is_reachable_set "
               "(the closure loop computes exactly the reachable symbols), check_complete / incomplete_is_rejected, "
               "generated_reads_exist (every array pointer the generated compute() takes exists), "
               "error_names_equation_and_missing, rejection_is_justified (only the strict-subset quirk rejects a complete problem), "
@@ -29,11 +29,15 @@ LEVEL_TEXT = ("Lean 4 theorems over every precomputed-symbol table, every list o
               "bound to the stepped array, so p must be in THAT array; nothing is bound that was not checked), "
               "stepper_decl_types_known / stepper_decl_total (the declaration site never raises the bare KeyError), "
               "stepper_missing_arg_is_rejected, "
+              "shared_stepper_checked_per_array / shared_stepper_bindings_exist / shared_stepper_incomplete_is_rejected "
+              "(one stepper object given to several keywords is checked for EVERY keyword's array), "
+              "per_object_check_incomplete (counterexample: a check run once per stepper object accepts a problem whose "
+              "generated integrator binds a missing pointer) and per_object_check_agrees_when_unshared, "
               "no_incomplete_problem_reaches_execution, plus the F10 counterexample for the checker of the pinned tree "
               "(orig_check_incomplete, orig_check_complete_partial, repair_is_conservative). The model is tied to the code "
               "on every run by differential execution against the scratch build (every shipped Equation and "
               "IntegratorStep class x removal of an explicitly / implicitly needed name x misspelt names, generated "
-              "equations, generated steppers with d_* and s_* arguments / constants / one class on several arrays / every "
+              "equations, generated steppers with d_* and s_* arguments / constants / one class on several arrays as separate objects or as one shared object (incomplete array named first or later) / every "
               "shipped integrator class, through SPHCompiler._get_code(); the three sites check / declaration / binding of the "
               "integrator generator are compared one by one), and the property's own predicate is evaluated on "
               "the implementation to produce replays.")
